@@ -272,7 +272,16 @@ def check_scanners(cx, facts, rep):
         for b in sc.branches:
             acts = [a[0] for a in b.actions]
             inst = 'branch=%s' % b.trait
-            dominated = any(c['k'] == 'survive' for c in b.ev.ctx) and any(c['k'] == 'if' and c.get('prior') and not c['pol'] and 'traits.contains' in es(c['cond']) for c in b.ev.ctx)
+            def _contains_established(c):
+                # the statements after `if !traits.contains(&t) { return Err(..) }` run under "traits.contains(&t)", however the test is spelled
+                if c['k'] != 'if' or not c.get('prior'):
+                    return False
+                t_ = es(c['cond']).replace(' ', '')
+                while t_.startswith('(') and t_.endswith(')'):
+                    t_ = t_[1:-1]
+                neg_ = t_.startswith('!')
+                return 'traits.contains' in t_ and (neg_ != bool(c['pol']))
+            dominated = any(c['k'] == 'survive' for c in b.ev.ctx) and any(_contains_established(c) for c in b.ev.ctx)
             if not dominated:
                 rep.bad('SCAN', where, inst + '-order', 'the branch for Trait::%s is reachable before the unknown-trait / trait-not-used checks' % b.trait, f.file, b.ev.line)
                 continue
@@ -287,6 +296,13 @@ def check_scanners(cx, facts, rep):
                 extra_c = [o for o in b.extra_conds if not (b.trait != X and o.replace(' ', '') == 'traits.contains(&Trait::%s)' % b.trait)]
                 if extra_c:
                     rep.bad('SCAN', where, inst + '-condition', 'metas of Trait::%s are only parsed under the further condition `%s`: where it does not hold they are accepted without being looked at' % (b.trait, extra_c[0][:60]),
+                            f.file, b.ev.line)
+                    continue
+                # the own-trait branch exists in every build that has the trait: a `cfg` of another feature on it (an `else if` chained
+                # to a cfg-gated `if`) switches the parsing of this trait's parameters off in some feature sets
+                foreign_cfg = [p_ for p_ in b.cfg if b.trait == X and p_ != ('feat', X)]
+                if foreign_cfg:
+                    rep.bad('SCAN', where, inst + '-cfg', 'the branch that parses the metas of Trait::%s is compiled only under %s: without it they are accepted and ignored' % (b.trait, foreign_cfg),
                             f.file, b.ev.line)
                     continue
                 builds = [a for a in b.actions if a[0] in ('build', 'push')]
